@@ -801,7 +801,13 @@ def eval_clean_logs(ctx):
         "glob.glob": lambda pat, *a, **k: sorted(p_ for p_ in disk if _fn.fnmatchcase(p_, str(pat))), "glob.iglob": lambda pat, *a, **k: iter(sorted(p_ for p_ in disk if _fn.fnmatchcase(p_, str(pat)))),
     }
     interp = PureInterp(ctx, hooks=hooks)
-    graph = Obj("graph", targets={n_: Obj("t", name=n_) for n_ in ("A", "B", "old.v2")})
+    # (an instance of the package's Graph class: `name in graph`, `graph[name]`, iteration and len are the class's own)
+    tg_ = {n_: target_obj(ctx, name=n_) for n_ in ("A", "B", "old.v2")}
+    try:
+        gci_ = {"__class__": ctx.index.cls("gwf.core:Graph")}
+    except Exception:
+        gci_ = {}
+    graph = Obj("graph", targets=tg_, dependencies={}, dependents={}, provides={}, unresolved=set(), **gci_)
     try:
         interp.call(fn, (PROJ, graph), {})
     except (Raised, Unsupported) as exc:
@@ -1457,6 +1463,27 @@ def create_backend_witness(ctx):
         if got != want or seen.get("extra") != {"host": "localhost", "accounting_enabled": True} or not (isinstance(out, Obj) and out._name == "backend:" + sel):
             diffs.append(f"create_backend({sel!r}, ...) builds {got} from namespace {seen.get('prefix')!r}; expected factory {sel} with working_dir and exactly the "
                          f"'backend.{sel}' settings as keyword arguments")
+    # a setting the selected backend does not know (a typo, a key of a newer version) next to one it does: refusing is fine, warning and dropping the unknown key is fine -
+    # building the backend WITHOUT the setting it does know is not ("the settings of the selected backend reach it")
+    built = []
+
+    def fac2(working_dir=None, log_mode="full", accounting_enabled=True, **extra):
+        if extra:
+            raise Raised("TypeError", f"create_backend() got an unexpected keyword argument {sorted(extra)[0]!r}")
+        built.append({"working_dir": working_dir, "log_mode": log_mode, "accounting_enabled": accounting_enabled})
+        return Obj("backend:slurm")
+    hooks = {"attr:get_namespace": lambda recv, prefix: {"log_mode": "none", "partition": "short"}, "F_slurm": fac2,
+             "gwf.backends.base.discover_backends": lambda: {"slurm": (FuncRef("F_slurm"), 10)}}
+    try:
+        PureInterp(ctx, hooks=hooks).call(cb, ("slurm", PROJ, Obj("config")))
+    except Raised:
+        pass
+    except Unsupported as exc:
+        return n, diffs, f"{type(exc).__name__}: {exc}"
+    n += 1
+    if built and built[-1]["log_mode"] != "none":
+        diffs.append(f"with backend.slurm.log_mode=none and an unknown key backend.slurm.partition configured, create_backend builds the backend with {built[-1]}: the setting "
+                     "the backend does know (log_mode=none) is discarded together with the unknown one, so the configured value silently has no effect")
     return n, diffs, None
 
 
@@ -1784,7 +1811,7 @@ def server_session_witness(ctx):
             if bound.get("deps") == msg["deps"]:
                 diffs.append(f"the prerequisite ids reach the scheduler as a one-shot iterator ({kind}): the task coroutine goes through them twice (wait for all, then check every "
                              "state), the second pass sees nothing, so a failed or cancelled prerequisite no longer stops the dependent")
-        if bound != msg:
+        if {k: bound.get(k, Ellipsis) for k in msg} != msg:
             diffs.append(f"enqueue_task request {msg} reaches the scheduler as {bound}: every field must arrive under its own name (deps are the prerequisites the task waits for)")
     if [c[0] for c in sc] != ["enqueue_task", "get_task_states", "cancel_task"]:
         diffs.append(f"requests [enqueue_task, get_task_states, cancel_task] lead to scheduler calls {[c[0] for c in sc]}")
@@ -1951,7 +1978,8 @@ def local_client_witness(ctx):
             return 0, diffs, out[k]
     want = {"name": "N", "script": "S", "working_dir": "/w", "deps": [0, 3]}
     ss = out["submit_sent"]
-    if len(ss) != 1 or ss[0][0] != "enqueue_task" or {k: v for k, v in ss[0][1].items() if k != "time_limit"} != want or ss[0][1].get("time_limit") is not None:
+    # (further fields - a newer option of the request - are not this property's business; the ones it names must be there under their own names)
+    if len(ss) != 1 or ss[0][0] != "enqueue_task" or {k: ss[0][1].get(k, Ellipsis) for k in want} != want or ss[0][1].get("time_limit") is not None:
         diffs.append(f"submitting target N with prerequisites [0, 3] (the pool numbers its tasks from 0) sends {ss}; expected one enqueue_task carrying name, script, "
                      "working_dir and deps=[0, 3]: a dropped id lets the task start before that prerequisite finished")
     X = out["submit"]
@@ -2072,6 +2100,16 @@ def eval_find_workflow(ctx, spec, cwd, existing, links=None, env=None, more_args
         "getattr:parent": lambda o: P(posixpath.dirname(str(o)) or "."),
         "getattr:anchor": lambda o: "/" if str(o).startswith("/") else "",
         "getattr:parents": lambda o: [P(p) for p in _parents(str(o))],
+        # the purely lexical properties of a path, as pathlib computes them
+        "getattr:parts": lambda o: __import__("pathlib").PurePosixPath(str(o)).parts,
+        "getattr:name": lambda o: __import__("pathlib").PurePosixPath(str(o)).name if isinstance(o, PathTok) else o.name,
+        "getattr:stem": lambda o: __import__("pathlib").PurePosixPath(str(o)).stem,
+        "getattr:suffix": lambda o: __import__("pathlib").PurePosixPath(str(o)).suffix,
+        "getattr:suffixes": lambda o: __import__("pathlib").PurePosixPath(str(o)).suffixes,
+        "getattr:root": lambda o: "/" if str(o).startswith("/") else "", "getattr:drive": lambda o: "",
+        "attr:as_posix": lambda recv: str(recv), "attr:with_name": lambda recv, nm: P(posixpath.join(posixpath.dirname(str(recv)), nm)),
+        "attr:relative_to": lambda recv, other: P(str(__import__("pathlib").PurePosixPath(str(recv)).relative_to(str(other)))),
+        "attr:is_relative_to": lambda recv, other: __import__("pathlib").PurePosixPath(str(recv)).is_relative_to(str(other)),
         "attr:resolve": h_resolve, "os.path.realpath": lambda p_, *a, **k: str(h_resolve(p_)), "attr:readlink": lambda recv: P(links.get(str(recv), str(recv))),
         "os.readlink": lambda p_: links.get(str(p_), str(p_)),
         "os.path.abspath": lambda p_: posixpath.normpath(str(p_) if str(p_).startswith("/") else posixpath.join(cwd, str(p_))),
@@ -2757,6 +2795,10 @@ def touch_command_witness(ctx):
         if sorted(touched) != sorted(want):
             diffs.append(f"`{label}` touches {sorted(touched)}; the property prescribes exactly the outputs of the cone {sorted(cone)}: {sorted(want)}")
             continue
+        upd = [e[1] for e in ev if e[0] == "update"]
+        if sorted(set(upd)) != sorted(cone):
+            diffs.append(f"`{label}` records the spec hashes of {sorted(set(upd))}, expected those of every target of the cone {sorted(cone)}: with spec hashing on, the targets "
+                         "whose hash is not recorded are still reported as changed (`shouldrun`) after `gwf touch`")
         if writes:
             diffs.append(f"`{label}` opens {writes[0][1]} for writing (mode {writes[0][2]}): the content of existing files must never change")
         for e in ev:
@@ -3288,7 +3330,8 @@ def pool_as_started(ctx):
     return extra
 
 
-def eval_task(ctx, deps=None, rc=0, timeout=False, spawn_fails=False, log_fails=False, cancel_at=None, unknown_dep=False, finished=(), leader_reaped=False, one_shot=False):
+def eval_task(ctx, deps=None, rc=0, timeout=False, spawn_fails=False, log_fails=False, cancel_at=None, unknown_dep=False, finished=(), leader_reaped=False, one_shot=False,
+              extra_kwargs=None):
     """Scheduler.try_handle_task evaluated once. deps: {dep id: final LocalStatus member}. Returns (result dict, error)."""
     LOCAL = "gwf.backends.local"
     idx = ctx.index
@@ -3306,6 +3349,11 @@ def eval_task(ctx, deps=None, rc=0, timeout=False, spawn_fails=False, log_fails=
 
     def h_wait(aws, **k):
         aws = list(aws)
+        rw = k.get("return_when")
+        if rw is not None and "FIRST" in str(getattr(rw, "name", rw)) and aws:
+            # FIRST_COMPLETED / FIRST_EXCEPTION: the call returns as soon as one of them is done - in the witness always exactly one, so a loop has to come back for the rest
+            ev.append(("wait", [getattr(aws[0], "dep", "?")], dict(k)))
+            return ({aws[0]}, set(aws[1:]))
         ev.append(("wait", sorted(getattr(a, "dep", "?") for a in aws), dict(k)))
         return (set(aws), set())
 
@@ -3382,8 +3430,9 @@ def eval_task(ctx, deps=None, rc=0, timeout=False, spawn_fails=False, log_fails=
         "asyncio.wait_for": h_wait_for,
         "asyncio.create_subprocess_shell": h_spawn, "asyncio.create_subprocess_exec": h_spawn,
         "asyncio.sleep": lambda *a, **k: ev.append(("sleep", a[0] if a else None)),
-        "attr:acquire": lambda recv, *a, **k: ev.append(("acquire",)),
-        "attr:release": lambda recv, *a, **k: ev.append(("release",)),
+        # (the pool's cores are the scheduler's semaphore; any other lock the coroutine takes is recorded under another name)
+        "attr:acquire": lambda recv, *a, **k: ev.append(("acquire",) if recv is sem or not isinstance(recv, Obj) else ("lock-acquire", getattr(recv, "_name", "?"))),
+        "attr:release": lambda recv, *a, **k: ev.append(("release",) if recv is sem or not isinstance(recv, Obj) else ("lock-release", getattr(recv, "_name", "?"))),
         "attr:communicate": h_communicate,
         "attr:wait": h_proc_wait,
         "attr:done": lambda recv, *a, **k: getattr(recv, "dep", None) in finished, "attr:cancelled": lambda recv, *a, **k: False,
@@ -3413,7 +3462,7 @@ def eval_task(ctx, deps=None, rc=0, timeout=False, spawn_fails=False, log_fails=
     proc.stdout.concurrent = proc.stderr.concurrent = lambda: interp.concurrent > 0
     out = {"events": ev, "raised": None, "hang": None}
     try:
-        interp.call(th, (7, "NAME.v1", "echo hi", "/work", 5 if timeout else None, (iter(dep_ids) if one_shot else dep_ids)), {}, self_obj=sched)
+        interp.call(th, (7, "NAME.v1", "echo hi", "/work", 5 if timeout else None, (iter(dep_ids) if one_shot else dep_ids)), dict(extra_kwargs or {}), self_obj=sched)
     except Hang as exc:
         out["hang"] = str(exc)
     except Raised as exc:
@@ -3427,8 +3476,9 @@ def eval_task(ctx, deps=None, rc=0, timeout=False, spawn_fails=False, log_fails=
     return out, None
 
 
-def _task_invariants(label, out):
-    """Property-level invariants of one evaluated history of the task coroutine (C11, C12, C13)."""
+def _task_invariants(label, out, pool_size=None):
+    """Property-level invariants of one evaluated history of the task coroutine (C11, C12, C13).  pool_size: the task was given a request for several cores (an
+    option the checker does not know): it may then hold several, never more than the pool has (it would wait forever for the rest)."""
     ev = out["events"]
     kinds = [e[0] for e in ev]
     diffs = []
@@ -3437,8 +3487,15 @@ def _task_invariants(label, out):
     for i, e in enumerate(ev):
         if e[0] == "acquire":
             held += 1
-            if held > 1:
+            if held > 1 and pool_size is None:
                 diffs.append(f"{label}: the task obtains a second core while it still holds one")
+            if pool_size is not None and held > pool_size:
+                diffs.append(f"{label}: the task asks the pool of {pool_size} for core number {held}: it waits forever, holding all the others")
+            elif pool_size is not None and held > 1 and not any("waits for a further core" in d_ for d_ in diffs) and \
+                    sum(1 for x in ev[:i] if x[0] == "lock-acquire") <= sum(1 for x in ev[:i] if x[0] == "lock-release"):      # (not while holding a mutex that serialises wide tasks)
+                diffs.append(f"{label}: the task waits for a further core while it holds {held - 1} (one acquire() at a time): two such tasks can each hold part of the pool and wait "
+                             "for the rest forever - neither ever reaches a final state, and every core they hold is lost to the other tasks (a counting semaphore hands out "
+                             "slots one by one; taking several is not atomic)")
         elif e[0] == "cancel-delivered" and "acquire" in str(e[2]):
             held -= 1
         elif e[0] == "release":
@@ -3499,17 +3556,18 @@ def task_coroutine_witness(ctx):
             ok_deps = all(s == "COMPLETED" for s in deps.values())
             if deps:
                 waits = [e for e in out["events"] if e[0] == "wait"]
-                waited = sorted({d for w in waits for d in w[1]})
-                if waited != sorted(deps):
-                    diffs.append(f"{label}: the coroutine waits for dependencies {waited}, not for all of {sorted(deps)}")
+                # what matters is what has been waited for when the process starts (a loop that wakes up per finished dependency and gives up at the first failure is
+                # fine; one that starts the process after the first wake-up is not)
+                kinds_ = [e[0] for e in out["events"]]
+                upto = kinds_.index("spawn") if "spawn" in kinds_ else len(kinds_)
+                waited = sorted({d for e in out["events"][:upto] if e[0] == "wait" for d in e[1]})
+                if spawned(out) and waited != sorted(deps):
+                    diffs.append(f"{label}: the process is started when only the dependencies {waited} of {sorted(deps)} have been waited for")
+                if not spawned(out) and not waits:
+                    diffs.append(f"{label}: the coroutine decides without waiting for any dependency")
                 for w in waits:
-                    rw = w[2].get("return_when")
-                    if rw is not None and "ALL_COMPLETED" not in str(getattr(rw, "name", rw)):
-                        diffs.append(f"{label}: dependencies are awaited with return_when={rw}: the task can start when only the first dependency has finished")
                     if w[2].get("timeout") is not None:
                         diffs.append(f"{label}: the wait for the dependencies has a timeout: the task can start while a dependency is still running")
-                if spawned(out) and "wait" in [e[0] for e in out["events"]] and [e[0] for e in out["events"]].index("spawn") < [e[0] for e in out["events"]].index("wait"):
-                    diffs.append(f"{label}: the process is started before the dependencies are awaited")
             if ok_deps != spawned(out):
                 diffs.append(f"{label}: the task's process is {'started' if spawned(out) else 'not started'}; it must be started exactly when every dependency completed successfully")
             if out["final"] not in want:
@@ -3525,6 +3583,25 @@ def task_coroutine_witness(ctx):
                 diffs.append(f"{label}: the task's process is {'started' if spawned(out) else 'not started'}; it must be started exactly when every dependency completed successfully")
             if out["final"] not in want:
                 diffs.append(f"{label}: the task ends {out['final']}, expected {sorted(want)}")
+        # parameters of the coroutine the checker does not know and that count something (an int default: cores, slots, weight ...): the histories in which cores are
+        # taken and given back, with a request larger than the pool (2) and with the smallest one
+        th_ = ctx.index.method(ctx.index.cls("gwf.backends.local:Scheduler"), "try_handle_task")
+        known_ = {"self", "tid", "name", "script", "working_dir", "time_limit", "deps"}
+        a_ = th_.node.args
+        pos_ = a_.posonlyargs + a_.args
+        dflt_ = dict(zip([x.arg for x in pos_[len(pos_) - len(a_.defaults):]], a_.defaults))
+        dflt_.update({x.arg: d for x, d in zip(a_.kwonlyargs, a_.kw_defaults) if d is not None})
+        for pname, d in dflt_.items():
+            if pname in known_ or not (isinstance(d, ast.Constant) and type(d.value) is int):
+                continue
+            for val in (4, d.value):
+                for label, kw in ((f"{pname}={val}, exit 0", {}), (f"{pname}={val}, the process cannot be started", {"spawn_fails": True}),
+                                  (f"{pname}={val}, time limit exceeded", {"timeout": True}), (f"{pname}={val}, a dependency failed", {"deps": {1: "FAILED"}})):
+                    out, err = eval_task(ctx, extra_kwargs={pname: val}, **kw)
+                    if err:
+                        raise Unsupported(err)
+                    n += 1
+                    diffs.extend(d_ for d_ in _task_invariants(label, out, pool_size=2) if "core" in d_ or "release" in d_)
         out = run("unknown dependency id", unknown_dep=True)
         if spawned(out) or out["final"] != "FAILED":
             diffs.append(f"a task naming an unknown dependency id {'is started' if spawned(out) else 'is not started'} and ends {out['final']}; expected: not started, FAILED")
@@ -3661,7 +3738,7 @@ def cancel_task_witness(ctx):
     return n, diffs, None
 
 
-def eval_backend_init(ctx, disk):
+def eval_backend_init(ctx, disk, query_fails=False):
     """TrackingBackend's initialisers (attrs default methods in field order, then __attrs_post_init__) with the state file and ops hooked.
 
     disk: the dict saved by the previous invocation or None (no file). Returns dict(tracked, states, queried, opened) or an error string."""
@@ -3680,6 +3757,8 @@ def eval_backend_init(ctx, disk):
     def h_states(recv, ids):
         ids = list(ids)
         queried.append(ids)
+        if query_fails:
+            raise Raised("BackendError", "squeue: error: slurm_load_jobs error: Socket timed out on send/recv operation")
         answer.update({i: EnumVal("gwf.backends.base.BackendStatus", "RUNNING") for i in ids})
         return dict(answer)
 
@@ -3742,7 +3821,13 @@ def cached_fs_witness(ctx):
             del stats[n0:]
     hooks = {"os.stat": h_stat, "os.lstat": lambda p, *a, **k: (stats.append(("lstat", str(p), {})), h_quiet(p))[1],
              "os.path.exists": lambda p: (stats.append(("stat", str(p), {})), str(p) != "/missing")[1],
-             "os.path.getmtime": lambda p: (stats.append(("stat", str(p), {})), h_quiet(p).st_mtime)[1]}
+             "os.path.getmtime": lambda p: (stats.append(("stat", str(p), {})), h_quiet(p).st_mtime)[1],
+             # "/adir" is a directory (a folder of reads, a reference index): it exists, and it is not a regular file
+             "os.path.isfile": lambda p: (stats.append(("stat", str(p), {})), str(p) not in ("/missing", "/adir"))[1],
+             "os.path.isdir": lambda p: (stats.append(("stat", str(p), {})), str(p) == "/adir")[1],
+             "os.path.lexists": lambda p: (stats.append(("lstat", str(p), {})), str(p) != "/missing")[1],
+             "os.path.islink": lambda p: (stats.append(("lstat", str(p), {})), False)[1],
+             "os.access": lambda p, *a, **k: str(p) != "/missing"}
     interp = PureInterp(ctx, hooks=hooks)
 
     def new_fs():
@@ -3778,6 +3863,14 @@ def cached_fs_witness(ctx):
         if got0 != [True, 0.0]:
             diffs.append(f"for an existing file whose modification time is 0 (dated 1970-01-01) exists/changed_at give {got0}; expected [True, 0.0]: the time stamp is judged "
                          "by its truth value, so the file counts as missing (a well-formed workflow is rejected with an unresolved input, or the target is always stale)")
+        try:
+            gotd = [interp.call(m_exists, ("/adir",), {}, self_obj=fs), interp.call(m_changed, ("/adir",), {}, self_obj=fs)]
+        except Raised as exc:
+            gotd = f"raises {exc.kind}"
+        n += 1
+        if gotd != [True, 111.5]:
+            diffs.append(f"for an existing directory (an input such as a folder of reads, which no target provides) exists/changed_at give {gotd}; expected [True, <st_mtime>]: "
+                         "the path counts as missing, so a well-formed workflow is rejected with an unresolved input")
         before = len(stats)
         fs2 = new_fs()
         interp.call(m_exists, ("/a",), {}, self_obj=fs2)
